@@ -16,7 +16,7 @@ mutual
 def ownLeaves : Shape → Bool
   | .tt _ | .text _ => true
   | .sink _ | .tbt => false
-  | .etod c | .deco c | .tagger _ _ c | .tfr c | .e2s c => ownLeaves c
+  | .etod c | .deco c | .tagger _ _ c | .tfr c | .e2s c | .ffbox _ _ c => ownLeaves c
   | .multi cs => ownLeavesL cs
 def ownLeavesL : List Shape → Bool
   | [] => true
@@ -26,7 +26,7 @@ end
 mutual
 def hasText : Shape → Bool
   | .text _ => true
-  | .etod c | .deco c | .tagger _ _ c | .tfr c | .e2s c => hasText c
+  | .etod c | .deco c | .tagger _ _ c | .tfr c | .e2s c | .ffbox _ _ c => hasText c
   | .multi cs => hasTextL cs
   | _ => false
 def hasTextL : List Shape → Bool
@@ -34,9 +34,16 @@ def hasTextL : List Shape → Bool
   | c :: cs => hasText c || hasTextL cs
 end
 
+/-- the object reported to is not a bare `TestResultDecorator` / `Tagger` on which `failfast` was assigned: nothing in a
+decorator acts on such an attribute, it only takes effect through the `ExtendedToOriginalDecorator` that wraps the
+decorator (the one `TestCase.run`, `MultiTestResult`, `ThreadsafeForwardingResult` build) — see "failfast set" below -/
+def rootPlain : Shape → Bool
+  | .ffbox _ _ _ => false
+  | _ => true
+
 /-- calls a caller may make; own leaves; a `TextTestResult` or a stream pipeline is started with `startTestRun` -/
 def inScope (i : Input) : Bool :=
-  i.hist.all Call.ok && ownLeaves i.shape &&
+  i.hist.all Call.ok && ownLeaves i.shape && rootPlain i.shape &&
   (!(hasText i.shape || Spec.C17.Shape.hasE2s i.shape) || i.hist.head? == some .startTestRun)
 
 /-! ### verdict -/
@@ -87,11 +94,32 @@ mutual
 def leafParams : Shape → List Bool
   | .tt ff | .text ff => [ff]
   | .sink _ | .tbt => [false]
-  | .etod c | .deco c | .tagger _ _ c | .tfr c | .e2s c => leafParams c
+  | .etod c | .deco c | .tagger _ _ c | .tfr c | .e2s c | .ffbox _ _ c => leafParams c
   | .multi cs => leafParamsL cs
 def leafParamsL : List Shape → List Bool
   | [] => []
   | c :: cs => leafParams c ++ leafParamsL cs
+end
+
+/-! **What "failfast set" means.**  On a `TestResult` / `TextTestResult`: the constructor parameter (`leafParams`) or a
+later assignment.  On a `MultiTestResult` / `ExtendedToOriginalDecorator`: an assignment, which lands on the targets
+(`setFailfast` in the history).  On a `TestResultDecorator` / `Tagger` layer (`Shape.ffbox late b d`): the plain
+instance attribute `failfast = b`, assigned on the decorator object before (`late = false`) or after (`late = true`)
+the objects above it were built — the two are to behave alike.  The decorator does not act on the attribute; the
+`ExtendedToOriginalDecorator` directly above it (explicit, or the one a `MultiTestResult` /
+`ThreadsafeForwardingResult` builds around its target) reads it on every outcome, so *that* adapter is the fail-fast
+object: every result below it is to stop at the first error / failure / unexpected success (`guards`, `leafStops`),
+and `failfast` read through it (and through a `MultiTestResult` whose first target it is) is `b` (`ffRead`). -/
+mutual
+/-- the `failfast` instance attributes of decorator layers -/
+def ffParams : Shape → List Bool
+  | .ffbox _ b c => b :: ffParams c
+  | .tt _ | .text _ | .sink _ | .tbt => []
+  | .etod c | .deco c | .tagger _ _ c | .tfr c | .e2s c => ffParams c
+  | .multi cs => ffParamsL cs
+def ffParamsL : List Shape → List Bool
+  | [] => []
+  | c :: cs => ffParams c ++ ffParamsL cs
 end
 
 /-- wrapping a result leaves its `failfast` alone -/
@@ -121,7 +149,8 @@ def cSticky (i : Input) (t : Trace) : Bool :=
   !inScope i || sticky false i.hist t.obs
 
 /-- not earlier: `shouldStop` only after a `stop()`, or after an error / failure / unexpected success when
-fail-fast was set somewhere (on a leaf before wrapping, or by an assignment), since the last `startTestRun` -/
+fail-fast was set somewhere (on a leaf before wrapping, on a decorator layer, or by an assignment), since the last
+`startTestRun` -/
 def notEarlier (ffEver : Bool) (reason : Bool) : List Call → List Obs → Bool
   | [], [] => true
   | c :: h, o :: os =>
@@ -134,7 +163,7 @@ def notEarlier (ffEver : Bool) (reason : Bool) : List Call → List Obs → Bool
   | _, _ => false
 
 def cNotEarlier (i : Input) (t : Trace) : Bool :=
-  !inScope i || notEarlier ((leafParams i.shape).any id) false i.hist t.obs
+  !inScope i || notEarlier ((leafParams i.shape ++ ffParams i.shape).any id) false i.hist t.obs
 
 /-- `stop()` reaches every underlying result -/
 def stopReaches : List Call → List Obs → Bool
@@ -147,11 +176,13 @@ def cStopReaches (i : Input) (t : Trace) : Bool :=
 
 /-! ### every result by itself: its own fail-fast setting survives whatever wrappers do -/
 /- `failfast` as a freshly built object reads it: a `MultiTestResult` reads its first target's, an
-`ExtendedToOriginalDecorator` its target's (its own flag, initially false, if the target has none) -/
+`ExtendedToOriginalDecorator` its target's (its own flag, initially false, if the target has none), a decorator
+layer with the instance attribute has that -/
 mutual
 def ffRead : Shape → Bool
   | .tt ff | .text ff => ff
   | .etod c => (caps c).failfast && ffRead c
+  | .ffbox _ b _ => b
   | .multi ds => ffReadHead ds
   | _ => false
 def ffReadHead : List Shape → Bool
@@ -165,7 +196,7 @@ mutual
 def guards : Bool → Shape → List Bool
   | g, .tt _ | g, .text _ | g, .sink _ | g, .tbt => [g]
   | g, .etod c => guards (g || ffRead (.etod c)) c
-  | g, .deco c | g, .tagger _ _ c | g, .tfr c | g, .e2s c => guards g c
+  | g, .deco c | g, .tagger _ _ c | g, .tfr c | g, .e2s c | g, .ffbox _ _ c => guards g c
   | g, .multi cs => guardsL g cs
 def guardsL : Bool → List Shape → List Bool
   | _, [] => []
@@ -184,10 +215,11 @@ def zipAll3 (p : Bool → Bool → Bool → Bool) : List Bool → List Bool → 
   | _, _, _ => false
 
 /-- per result (stop, fail-fast parameter, guard), given whether a bad outcome was reported since the last
-`startTestRun`: a result built with fail-fast has stopped; a result built without, under no fail-fast
-`ExtendedToOriginalDecorator`, has not -/
+`startTestRun`: a result built with fail-fast, or under a fail-fast `ExtendedToOriginalDecorator` (one whose
+`failfast` reads true: set on the decorator layer or on the result it wraps), has stopped; a result built without,
+under no fail-fast `ExtendedToOriginalDecorator`, has not -/
 def leafRule (bad : Bool) (stopped ff guard : Bool) : Bool :=
-  (!(bad && ff) || stopped) && (!(!ff && !guard) || !stopped)
+  (!(bad && (ff || guard)) || stopped) && (!(!ff && !guard) || !stopped)
 
 def leafStops (params gs : List Bool) : Bool → List Call → List Obs → Bool
   | _, [], [] => true
